@@ -139,3 +139,311 @@ func VerifC14HeapText() {
 	}
 	vObserve(len(p.Sample), len(p.Location), len(p.Mapping))
 }
+
+func init() {
+	vRegister("VerifC14CountText", VerifC14CountText)
+	vRegister("VerifC14ThreadText", VerifC14ThreadText)
+	vRegister("VerifC14ContentionText", VerifC14ContentionText)
+	vRegister("VerifC14JavaText", VerifC14JavaText)
+}
+
+func vCheckStack(s *Sample, addrs []uint64, keepLeaf bool, label string) bool {
+	if len(s.Location) != len(addrs) {
+		vAssert(false, label+".stack: stack depth differs from the record")
+		return false
+	}
+	for j, a := range addrs {
+		want := a - 1
+		if keepLeaf && j == 0 {
+			want = a
+		}
+		vAssert(s.Location[j].Address == want, label+".addr: an address is not the record's (call sites moved back by one, leaf kept where the format says so)")
+	}
+	return true
+}
+
+// VerifC14CountText: Go count profiles ("goroutine profile: total N" / "n @ 0x.. 0x..").
+func VerifC14CountText() {
+	nd := 1 + vChoice("ndigits", vBound("c14t.digits", 2))
+	kinds := []string{"goroutine", "threadcreate"}
+	kind := kinds[vChoice("kind", 2)]
+	ts, _ := vDigitsP("total", nd)
+	doc := ""
+	if vChoice("leading", 2) == 1 {
+		doc += "# comment first\n\n"
+	}
+	doc += kind + " profile: total " + ts + "\n"
+	nrec := 1 + vChoice("records", vBound("c14t.records", 2))
+	var counts []int64
+	var stacks [][]uint64
+	for i := 0; i < nrec; i++ {
+		t := "r" + strconv.Itoa(i)
+		cs, c := vDigitsP(t+"c", nd)
+		na := 1 + vChoice(t+"naddr", 2)
+		line := cs + " @"
+		var as []uint64
+		for j := 0; j < na; j++ {
+			k := (i + j) % len(vTextAddrs)
+			line += " " + vTextAddrs[k]
+			as = append(as, vTextAddrVals[k])
+		}
+		doc += line + "\n"
+		if vChoice(t+"post", 2) == 1 {
+			doc += "#\t0x1100\tmain.f+0x10\t/x.go:1\n\n"
+		}
+		counts = append(counts, c)
+		stacks = append(stacks, as)
+	}
+	p, err := ParseData([]byte(doc))
+	vReach("C14.counttext:parsed")
+	if err != nil {
+		vAssert(false, "C14.counttext.rejected: a well-formed count profile was rejected")
+		return
+	}
+	vAssert(p.CheckValid() == nil, "C14.counttext.valid: parsed count profile is not valid")
+	ok := len(p.SampleType) == 1
+	if ok {
+		ok = p.SampleType[0].Type == kind && p.SampleType[0].Unit == "count"
+	}
+	vAssert(ok, "C14.counttext.type: sample type is not <kind>/count")
+	if len(p.Sample) != nrec {
+		vAssert(false, "C14.counttext.records: not one sample per record")
+		return
+	}
+	for i, s := range p.Sample {
+		vAssert(len(s.Value) == 1 && s.Value[0] == counts[i], "C14.counttext.value: a sample's value is not the record's count")
+		if !vCheckStack(s, stacks[i], false, "C14.counttext") {
+			return
+		}
+	}
+	vObserve(len(p.Sample), len(p.Location))
+}
+
+// VerifC14ThreadText: threadz documents; a "same as previous thread" record adds one to the preceding sample.
+func VerifC14ThreadText() {
+	doc := ""
+	if vChoice("header", 2) == 1 {
+		doc += "--- threadz 1 ---\n\n"
+	}
+	nth := 1 + vChoice("threads", vBound("c14t.threads", 3))
+	var want []int64
+	var stacks [][]uint64
+	for i := 0; i < nth; i++ {
+		t := "t" + strconv.Itoa(i)
+		doc += "--- Thread 7f794ab9094" + strconv.Itoa(i) + " (name: thr" + strconv.Itoa(i) + "/1424" + strconv.Itoa(i) + ") stack: ---\n"
+		same := i > 0 && vChoice(t+"same", 2) == 1
+		if same {
+			doc += "  (same as previous thread)\n"
+			want[len(want)-1]++
+			continue
+		}
+		na := 1 + vChoice(t+"naddr", 2)
+		var as []uint64
+		if vChoice(t+"oneline", 2) == 1 {
+			line := " "
+			for j := 0; j < na; j++ {
+				k := (i + j) % len(vTextAddrs)
+				line += " " + vTextAddrs[k]
+				as = append(as, vTextAddrVals[k])
+			}
+			doc += line + "\n"
+		} else {
+			for j := 0; j < na; j++ {
+				k := (i + j) % len(vTextAddrs)
+				doc += "  PC: " + vTextAddrs[k] + " func\n"
+				as = append(as, vTextAddrVals[k])
+			}
+		}
+		want = append(want, 1)
+		stacks = append(stacks, as)
+	}
+	// threadz printers always close the thread list with the memory-map section
+	withMap := vChoice("maps", 2) == 1
+	doc += "--- Memory map: ---\n"
+	if withMap {
+		doc += "00001000-0000b000 r-xp 00000000 00:00 0 /bin/prog\n"
+	}
+	p, err := ParseData([]byte(doc))
+	vReach("C14.threadtext:parsed")
+	if err != nil {
+		vAssert(false, "C14.threadtext.rejected: a well-formed threadz profile was rejected")
+		return
+	}
+	vAssert(p.CheckValid() == nil, "C14.threadtext.valid: parsed threadz profile is not valid")
+	if len(p.Sample) != len(want) {
+		vAssert(false, "C14.threadtext.records: not one sample per thread record (same-as-previous records add to the preceding sample)")
+		return
+	}
+	for i, s := range p.Sample {
+		vAssert(len(s.Value) == 1 && s.Value[0] == want[i], "C14.threadtext.value: a sample's count is not 1 plus its same-as-previous records")
+		if !vCheckStack(s, stacks[i], true, "C14.threadtext") {
+			return
+		}
+	}
+	if withMap {
+		ok := len(p.Mapping) == 1
+		if ok {
+			ok = p.Mapping[0].Start == 0x1000 && p.Mapping[0].Limit == 0xb000 && p.Mapping[0].File == "/bin/prog"
+		}
+		vAssert(ok, "C14.threadtext.mapping: mapping not taken from the trailing memory map")
+	}
+	vObserve(len(p.Sample), len(p.Location))
+}
+
+// VerifC14ContentionText: whole contentionz / Go mutex documents.
+func VerifC14ContentionText() {
+	heads := []string{"--- contentionz 1 ---", "--- mutex:", "--- contention:"}
+	nd := 1 + vChoice("ndigits", vBound("c14t.digits", 2))
+	doc := heads[vChoice("head", 3)] + "\n"
+	period := []int64{0, 1, 100}[vChoice("period", 3)]
+	cpuHz := []int64{0, 1000000000, 2000000000}[vChoice("cpuhz", 3)]
+	if cpuHz != 0 {
+		doc += "cycles/second = " + strconv.FormatInt(cpuHz, 10) + "\n"
+	}
+	wantPeriod := int64(1)
+	if period != 0 {
+		doc += "sampling period = " + strconv.FormatInt(period, 10) + "\n"
+		wantPeriod = period
+	}
+	var wantDur int64
+	if vChoice("ms", 2) == 1 {
+		ms, msv := vDigitsP("ms", nd)
+		doc += "ms since reset = " + ms + "\n"
+		wantDur = msv * 1000 * 1000
+	}
+	if vChoice("discarded", 2) == 1 {
+		doc += "discarded samples = 0\n"
+	}
+	nrec := 1 + vChoice("records", vBound("c14t.records", 2))
+	type rec struct {
+		delay, count int64
+		addrs        []uint64
+	}
+	var recs []rec
+	for i := 0; i < nrec; i++ {
+		t := "r" + strconv.Itoa(i)
+		ds, d := vDigitsP(t+"d", nd)
+		cs, c := vDigitsP(t+"c", nd)
+		na := 1 + vChoice(t+"naddr", 2)
+		line := ds + " " + cs + " @"
+		r := rec{delay: d, count: c}
+		for j := 0; j < na; j++ {
+			k := (i + j) % len(vTextAddrs)
+			line += " " + vTextAddrs[k]
+			r.addrs = append(r.addrs, vTextAddrVals[k])
+		}
+		doc += line + "\n"
+		recs = append(recs, r)
+	}
+	p, err := ParseData([]byte(doc))
+	vReach("C14.contentiontext:parsed")
+	if err != nil {
+		vAssert(false, "C14.contentiontext.rejected: a well-formed contention profile was rejected")
+		return
+	}
+	vAssert(p.CheckValid() == nil, "C14.contentiontext.valid: parsed contention profile is not valid")
+	vAssert(p.Period == wantPeriod, "C14.contentiontext.period: period is not the document's sampling period")
+	vAssert(p.DurationNanos == wantDur, "C14.contentiontext.duration: duration is not 'ms since reset' in nanoseconds")
+	if len(p.Sample) != nrec {
+		vAssert(false, "C14.contentiontext.records: not one sample per record")
+		return
+	}
+	for i, r := range recs {
+		s := p.Sample[i]
+		// (a document without a "sampling period" line has period 1)
+		wc, wd := r.count*wantPeriod, r.delay
+		if cpuHz > 0 {
+			wd = int64(float64(r.delay) * float64(wantPeriod) / (float64(cpuHz) / 1e9))
+		}
+		vAssert(len(s.Value) == 2 && s.Value[0] == wc, "C14.contentiontext.count: contention count is not the record's count times the sampling period")
+		vAssert(len(s.Value) == 2 && s.Value[1] == wd, "C14.contentiontext.delay: delay is not the record's delay scaled by period/GHz")
+		if !vCheckStack(s, r.addrs, false, "C14.contentiontext") {
+			return
+		}
+	}
+	vObserve(len(p.Sample), p.Period)
+}
+
+// VerifC14JavaText: Java heapz / contentionz documents with their location table.
+func VerifC14JavaText() {
+	heap := vChoice("kind", 2) == 0
+	nd := 1 + vChoice("ndigits", vBound("c14t.digits", 2))
+	var doc string
+	period := int64(0)
+	if heap {
+		doc = "--- heapz 1 ---\nformat = java\nresolution = bytes\n"
+	} else {
+		doc = "--- contentionz 1 ---\nformat = java\nresolution = microseconds\n"
+		period = []int64{0, 1, 100}[vChoice("period", 3)]
+		if period != 0 {
+			doc += "sampling period = " + strconv.FormatInt(period, 10) + "\n"
+		}
+	}
+	nrec := 1 + vChoice("records", vBound("c14t.records", 2))
+	type rec struct {
+		v1, v2 int64 // as printed: first and second number of the line
+		addrs  []int
+	}
+	var recs []rec
+	locNames := []string{"a.b.Main.run", "GC", "libjvm.so"}
+	locLines := []string{"a.b.Main.run (Main.java:42)", "GC", "libjvm.so (/usr/lib/libjvm.so)"}
+	for i := 0; i < nrec; i++ {
+		t := "r" + strconv.Itoa(i)
+		s1, v1 := vDigitsP(t+"a", nd)
+		s2, v2 := vDigitsP(t+"b", nd)
+		if heap {
+			// heapz: bytes then objects; a record has objects, and (sampled) bytes with them
+			vAssume(v2 >= 1)
+			vAssume(v1 == 0) // zero-sized: no unsampling involved (exp is outside the engine)
+		}
+		na := 1 + vChoice(t+"naddr", 2)
+		line := "  " + s1 + " " + s2 + " @"
+		r := rec{v1: v1, v2: v2}
+		for j := 0; j < na; j++ {
+			k := (i + j) % 3
+			line += " 0x" + strconv.FormatInt(int64(0x10+k), 16)
+			r.addrs = append(r.addrs, k)
+		}
+		doc += line + "\n"
+		recs = append(recs, r)
+	}
+	doc += "\n"
+	for k := range locLines {
+		doc += "  0x" + strconv.FormatInt(int64(0x10+k), 16) + " " + locLines[k] + "\n"
+	}
+	p, err := ParseData([]byte(doc))
+	vReach("C14.javatext:parsed")
+	if err != nil {
+		vAssert(false, "C14.javatext.rejected: a well-formed Java profile was rejected")
+		return
+	}
+	vAssert(p.CheckValid() == nil, "C14.javatext.valid: parsed Java profile is not valid")
+	if len(p.Sample) != nrec {
+		vAssert(false, "C14.javatext.records: not one sample per record")
+		return
+	}
+	for i, r := range recs {
+		s := p.Sample[i]
+		// Java lines carry their two numbers in the opposite order of the sample types
+		w0, w1 := r.v2, r.v1
+		if heap {
+			w0, w1 = 0, 0 // zero bytes: unsampled estimate is 0 objects / 0 bytes
+		} else if period != 0 {
+			w0, w1 = w0*period, w1*period
+		}
+		vAssert(len(s.Value) == 2 && vAnd(s.Value[0] == w0, s.Value[1] == w1), "C14.javatext.value: sample values are not the record's (count first, then bytes/delay; contention scaled by the period)")
+		if len(s.Location) != len(r.addrs) {
+			vAssert(false, "C14.javatext.stack: stack depth differs from the record")
+			return
+		}
+		for j, k := range r.addrs {
+			l := s.Location[j]
+			ok := len(l.Line) == 1 && l.Line[0].Function != nil
+			if ok {
+				ok = l.Line[0].Function.Name == locNames[k]
+			}
+			vAssert(ok, "C14.javatext.frame: a frame's function is not the one the location table gives for its address")
+		}
+	}
+	vObserve(len(p.Sample), len(p.Function))
+}
